@@ -96,7 +96,7 @@ func scenario(o opt) *explore.Scenario {
 func main() {
 	var l []*explore.Scenario
 	noAtomics := uint32(1<<sched.KLock | 1<<sched.KRLock | 1<<sched.KEtcd | 1<<sched.KUser | 1<<sched.KWait | 1<<sched.KStart)
-	for _, ad := range append(tsoh.Admins(), tsoh.Handover(0), tsoh.Handover(-time.Hour), tsoh.Handover(time.Hour)) {
+	for _, ad := range append(tsoh.Admins(), tsoh.Handover(0), tsoh.Handover(-time.Hour), tsoh.Handover(time.Hour), tsoh.HandoverBack(0)) {
 		lead := strings.HasPrefix(ad.Name, "reset") || strings.HasPrefix(ad.Name, "handover")
 		if lead {
 			l = append(l, scenario(opt{name: ad.Name + "/clk+3s", ad: ad, pre: 2, dev: 0, tiers: "quick", fixedClock: 3 * time.Second, rounds: 1}))
@@ -116,14 +116,7 @@ func main() {
 	l = append(l, scenario(opt{name: "lost-leader-record/clk+3s,+50ms", ad: lost, pre: 2, dev: 0, tiers: "quick", kinds: noAtomics, clocks: []time.Duration{3 * time.Second, 50 * time.Millisecond}, rounds: 2}))
 	l = append(l, scenario(opt{name: "lost-leader-record", ad: lost, pre: 2, dev: 2, tiers: "quick", kinds: noAtomics, rounds: 2}))
 	l = append(l, scenario(opt{name: "lost-leader-record@3", ad: lost, pre: 3, dev: 3, tiers: "thorough", faults: true, rounds: 3}))
-	lostRetry := tsoh.Admin{Name: "lost-leader-record+set-retry", Run: func(w *tsoh.World, n1 *tsoh.Node) {
-		sched.PointAt(sched.KUser, "delete leader record")
-		w.St.DeleteDirect(tsoh.Root + "/leader")
-		old := sched.SetMember(n1.ID)
-		_ = n1.Alloc.SetTSO(tsoh.TS(10*time.Second, 0))
-		_ = n1.Alloc.SetTSO(tsoh.TS(10*time.Second, 0))
-		sched.SetMember(old)
-	}}
+	lostRetry := tsoh.LostRetry()
 	l = append(l, scenario(opt{name: lostRetry.Name, ad: lostRetry, pre: 2, dev: 1, tiers: "quick", kinds: noAtomics, rounds: 1}))
 	l = append(l, scenario(opt{name: lostRetry.Name + "@3", ad: lostRetry, pre: 3, dev: 2, tiers: "thorough", faults: true, rounds: 2}))
 	none := tsoh.Admins()[0]
